@@ -51,6 +51,8 @@ def configs(tier, seed):
                     if algo == "Zooming" and part == "RB":
                         continue
                     out.append({"name": "dom-%s-%s-d2-reversed-range" % (algo, part), "mode": "dom", "algo": algo, "part": part, "d": 2, "T": 3, "reversed": True, "cost": 6})
+    for algo in ("T_HOO", "SOO", "HCT"):
+        out.append({"name": "det-%s-B-d3-degenerate-coordinate-T3" % algo, "mode": "det", "algo": algo, "part": "B", "d": 3, "T": 3, "degenerate": 1, "cost": 30})
     out.append({"name": "det-StroquOOL-B-n200-T18", "mode": "det", "algo": "StroquOOL", "part": "B", "d": 1, "T": 18, "params": {"n": 200}, "cost": 60})
     for algo, T in T_ISO.items():
         for part in ("B", "K3"):
@@ -160,6 +162,9 @@ def run(ctx, cfg):
     _HASH["count"] = 0
     mode, T, d = cfg["mode"], cfg["T"], cfg["d"]
     dom = sym_box(ctx, d)
+    if cfg.get("degenerate") is not None:
+        # a coordinate fixed by the user: [v, v] (only reproducibility and non-mutation are claimed on such a box)
+        dom[cfg["degenerate"]][1] = dom[cfg["degenerate"]][0]
     snap = snapshot(dom)
     if mode == "dom" and cfg.get("reversed"):
         # the last range is written [high, low] (the repository's own tests do that): only non-mutation is claimed
